@@ -3,12 +3,20 @@ import SafeNet.Proofs.ValidateData
 # Every schedule of concurrent validations: who may put what
 
 The small-step semantics `World` lets any number of validations run interleaved, each store read an explicit
-step that may be served at any later time.  This file proves an invariant over **all** action lists
-(`World.run`), by induction over the list: every key the store holds was held initially or was put by a
-validation that was actually started, whose read/write key is that key, whose record key passed the key
-check, and which was either a replication delivery or paid in full.  The per-step facts are the
-table-level lemmas of `Proofs/Validate.lean` (which hold for *every* observation vector, hence whatever the
-interleaving made the validation observe).
+step that may be served at any later time, and lets the store **drop any key at any point** (`Act.remove`:
+capacity eviction, range clean-up, removal of a failed write).  The key set is therefore not monotone, and a
+validation can be told "held" by `RecordStoreHasKey` and find nothing when it reads the record.
+
+This file proves, over **all** action lists (`World.run`), by induction over the list:
+* `put_justified` — about the validation that writes: every put an action emits is under the key its delivery
+  reads and writes, that key passed the key check, and the delivery is a replication delivery, or paid in
+  full, or the put is an *update*: the validation's own `GetLocalRecord` was served a record of the delivered
+  kind from the store as it was at some earlier point of the schedule;
+* `any_schedule_held_is_justified` — every key the store holds was held initially or is the put key of a
+  started, key-checked validation that was a replication delivery or paid in full (an update never creates a
+  key: what it updates was held, hence accounted for, earlier).
+The per-step facts are the table-level lemmas of `Proofs/Validate.lean` (which hold for *every* observation
+vector, hence whatever the interleaving made the validation observe).
 -/
 namespace SafeNet.Validate
 open SafeNet.Gen.Validate
@@ -35,6 +43,35 @@ theorem Store.get_put_ne' (s : Store) (k k' : Nat) (c : Content) (h : k' ≠ k) 
     split
     · rename_i h2; subst h2; simp [Store.get, h]
     · simp [Store.get, ih]
+
+theorem Store.get_remove (s : Store) (k k' : Nat) :
+    (s.remove k').get k = if k = k' then none else s.get k := by
+  induction s with
+  | nil => simp [Store.remove, Store.get]
+  | cons e rest ih =>
+    obtain ⟨k2, c2⟩ := e
+    unfold Store.remove at ih ⊢
+    rw [List.filter_cons]
+    by_cases h2 : k2 = k'
+    · subst h2
+      simp only [bne_self_eq_false, Bool.false_eq_true, if_false, ih]
+      by_cases hk : k = k2
+      · simp [hk]
+      · have : ¬ k2 = k := fun h => hk h.symm
+        simp [hk, Store.get, this]
+    · have hb : (k2 != k') = true := by simp [h2]
+      simp only [hb, if_true]
+      unfold Store.get
+      by_cases hk2 : k2 = k
+      · subst hk2; simp [h2]
+      · simp only [hk2, if_false]; exact ih
+
+/-- dropping a key never makes another key held -/
+theorem Store.remove_sub (s : Store) (k k' : Nat) (h : (s.remove k').get k ≠ none) : s.get k ≠ none := by
+  rw [Store.get_remove] at h
+  by_cases hk : k = k'
+  · simp [hk] at h
+  · simpa [hk] using h
 
 /-- a put never removes a key -/
 theorem Store.put_keeps (s : Store) (k k' : Nat) (c : Content) (h : s.get k ≠ none) :
@@ -99,17 +136,66 @@ theorem paidB_of_obs {d : Delivery} {a : Ans}
     simp only [hp, beq_self_eq_true] at this
     simp [← this]
 
+/-- `GetLocalRecord` answered with a record exactly when the observation says so -/
+theorem lSome_read {d : Delivery} {a : Ans} (h : (obsOfAns d a).lSome = true) : ∃ c0, a.g = some (some c0) := by
+  rw [obs_lSome] at h
+  cases hg : a.g with
+  | none => rw [hg] at h; simp at h
+  | some x =>
+    cases x with
+    | none => rw [hg] at h; simp at h
+    | some c0 => exact ⟨c0, rfl⟩
+
+/-- the local copy decodes as the delivered kind only if it is of that kind -/
+theorem lOk_fam {d : Delivery} {a : Ans} {c0 : Content} (hg : a.g = some (some c0))
+    (h : (obsOfAns d a).lOk = true) : contentFam d.content = some c0.fam := by
+  obtain ⟨client, kind, rk, content, pay⟩ := d
+  cases content <;> cases c0 <;> simp_all [obsOfAns, contentFam, Content.fam]
+
+theorem parse_fam {d : Delivery} {a : Ans} (h : (obsOfAns d a).parse = true) :
+    contentFam d.content = some (kindFam d.kind) := by
+  rw [obs_parse] at h
+  unfold parseOk at h
+  simp only [Bool.and_eq_true, beq_iff_eq] at h
+  exact h.1.1
+
+/-- the content a put carries is of the delivered kind -/
+theorem written_fam (d : Delivery) (a : Ans) (m : Bool) (n : Nat) (h : contentFam d.content = some n) :
+    (written d a m).fam = n := by
+  obtain ⟨client, kind, rk, content, pay⟩ := d
+  cases content with
+  | bad => simp [contentFam] at h
+  | chunk id => simp [contentFam] at h; simp [written, Content.fam, h]
+  | pad o c v => simp [contentFam] at h; simp [written, Content.fam, h]
+  | txs l =>
+    simp [contentFam] at h
+    simp only [written]
+    split <;> simp [Content.fam, h]
+  | reg id b ops =>
+    simp [contentFam] at h
+    simp only [written]
+    split
+    · split <;> simp [Content.fam, h]
+    · simp [Content.fam, h]
+
+/-- the put is an **update**: the validation's own `GetLocalRecord` was served a record `c0` of the delivered
+(mutable) kind -/
+def ReadLocal (d : Delivery) (a : Ans) : Prop :=
+  kindFam d.kind ≠ 0 ∧ ∃ c0, a.g = some (some c0) ∧ c0.fam = kindFam d.kind
+
 /-- **Per-validation put lemma.**  Whatever answers `a` a validation of `d` has received, every put in its
-trace is under `rwKey d`, the key check passed, and the delivery is legitimate or the *first*
-`RecordStoreHasKey` answer it received was "held". -/
+trace is under `rwKey d`, carries content of the delivered kind, the key check passed, and the delivery is
+legitimate or the put is an update of a record of that kind the validation itself read from the store. -/
 theorem W_of_any_obs {d : Delivery} {a : Ans} {k : Nat} {c : Content}
     (h : Tok.W k c ∈ (tr d.client d.kind (obsOfAns d a)).map (inst d a)) :
-    k = rwKey d ∧ KeyOk d ∧ (Legit d ∨ a.hs.getD 0 false = true) := by
-  obtain ⟨hk, hw, _⟩ := W_mem_inv h
-  refine ⟨hk, ?_, ?_⟩
-  · have hm := imp_of_bool (tbl_put_needs_key_match d.client d.kind (obsOfAns d a)) hw
-    simp only [Bool.and_eq_true, Bool.or_eq_true, Bool.not_eq_eq_eq_not, Bool.not_true, beq_iff_eq] at hm
-    by_cases hv : d.client = false ∧ d.kind = .tx
+    k = rwKey d ∧ c.fam = kindFam d.kind ∧ KeyOk d ∧ (Legit d ∨ ReadLocal d a) := by
+  obtain ⟨hk, hw, hc⟩ := W_mem_inv h
+  have hm := imp_of_bool (tbl_put_needs_key_match d.client d.kind (obsOfAns d a)) hw
+  simp only [Bool.and_eq_true, Bool.or_eq_true, Bool.not_eq_eq_eq_not, Bool.not_true, beq_iff_eq] at hm
+  have hfam := parse_fam hm.2
+  refine ⟨hk, ?_, ?_, ?_⟩
+  · rcases hc with ⟨_, rfl⟩ | ⟨_, rfl⟩ <;> exact written_fam d a _ _ hfam
+  · by_cases hv : d.client = false ∧ d.kind = .tx
     · obtain ⟨hc, hkd⟩ := hv
       refine ⟨by simp [rwKey, hc, hkd, route_repl_tx], fun hn => absurd ⟨hc, hkd⟩ hn⟩
     · have hkm : (obsOfAns d a).km = true := by
@@ -128,10 +214,15 @@ theorem W_of_any_obs {d : Delivery} {a : Ans} {k : Nat} {c : Content}
           cases h1 : isPaid d.kind
           · simp
           · cases h2 : (obsOfAns d a).pay <;> simp_all
-        have := imp_of_bool (tbl_unpaid_only_updates d.client d.kind (obsOfAns d a))
+        have := imp_of_bool (tbl_unpaid_put_reads_local d.client d.kind (obsOfAns d a))
           (and3 hcl hw hcond)
-        simp only [Bool.and_eq_true] at this
-        rw [← obs_h1]; exact this.1
+        simp only [Bool.and_eq_true, bne_iff_ne, ne_eq] at this
+        obtain ⟨⟨hs, hok⟩, hf⟩ := this
+        obtain ⟨c0, hg⟩ := lSome_read hs
+        refine ⟨hf, c0, hg, ?_⟩
+        have := lOk_fam hg hok
+        rw [hfam] at this
+        exact (Option.some.inj this).symm
 
 /-- every token `advance` emits is an instantiated token of the validation's trace at its current answers -/
 theorem advance_toks_sub (f : Flight) (s : Store) (t : Tok) (h : t ∈ (advance f s).toks) :
@@ -180,6 +271,27 @@ def startedBy (w : World) : List Act → List Delivery
       | .begin id d => if (w.flight id).isNone then [d] else []
       | _ => []) ++ startedBy (w.act a).1 rest
 
+/-- the local stores a schedule passes through: before its first action and after every action -/
+def storesAlong (w : World) : List Act → List Store
+  | [] => [w.store]
+  | a :: rest => w.store :: storesAlong (w.act a).1 rest
+
+/-- the delivery whose validation an action runs -/
+def World.actor (w : World) : Act → Option Delivery
+  | .begin id d => if (w.flight id).isNone then some d else none
+  | .run id => (w.flight id).map (·.d)
+  | _ => none
+
+def putOf (d : Delivery) : Tok → Option (Delivery × Nat × Content)
+  | .W k c => some (d, k, c)
+  | _ => none
+
+/-- the puts (`PutLocalRecord`) one action emits, each with the delivery whose validation emitted it -/
+def World.putsOf (w : World) (a : Act) : List (Delivery × Nat × Content) :=
+  match (w.act a).2, w.actor a with
+  | some (_, toks), some d => toks.filterMap (putOf d)
+  | _, _ => []
+
 /-- key `k` is accounted for: held initially, or put target of a started, key-checked, legitimate validation -/
 def Just (s0 : Store) (D : List Delivery) (k : Nat) : Prop :=
   s0.get k ≠ none ∨ ∃ d ∈ D, rwKey d = k ∧ KeyOk d ∧ Legit d
@@ -190,9 +302,19 @@ theorem Just.mono {s0 : Store} {D D' : List Delivery} {k : Nat} (h : Just s0 D k
   · exact Or.inl h
   · exact Or.inr ⟨d, hsub d hd, h⟩
 
-structure Inv (s0 : Store) (D : List Delivery) (w : World) : Prop where
-  held : ∀ k, w.store.get k ≠ none → Just s0 D k
-  flights : ∀ p ∈ w.flights, p.2.d ∈ D ∧ (p.2.a.hs.getD 0 false = true → w.store.get (rwKey p.2.d) ≠ none)
+/-- `H`: the stores passed through so far (the current one among them); `D`: the deliveries started so far -/
+structure Inv (s0 : Store) (H : List Store) (D : List Delivery) (w : World) : Prop where
+  cur : w.store ∈ H
+  past : ∀ s ∈ H, ∀ k, s.get k ≠ none → Just s0 D k
+  flights : ∀ p ∈ w.flights, p.2.d ∈ D ∧
+    ∀ c0, p.2.a.g = some (some c0) → ∃ s ∈ H, s.get (rwKey p.2.d) = some c0
+
+theorem Inv.mono {s0 : Store} {H H' : List Store} {D D' : List Delivery} {w : World} (h : Inv s0 H D w)
+    (hH : ∀ s ∈ H, s ∈ H') (hD : ∀ d ∈ D, d ∈ D') (hpast : ∀ s ∈ H', s ∈ H) : Inv s0 H' D' w :=
+  ⟨hH _ h.cur, fun s hs k hk => (h.past s (hpast s hs) k hk).mono hD,
+   fun p hp => ⟨hD _ (h.flights p hp).1, fun c0 hc => by
+     obtain ⟨s, hs, hg⟩ := (h.flights p hp).2 c0 hc
+     exact ⟨s, hH s hs, hg⟩⟩⟩
 
 theorem flight_mem {w : World} {id : Nat} {f : Flight} (h : w.flight id = some f) :
     ∃ p ∈ w.flights, p.2 = f := by
@@ -221,144 +343,375 @@ theorem mem_setFlight {w : World} {id : Nat} {fo : Option Flight} {p : Nat × Fl
 
 theorem setFlight_store (w : World) (id : Nat) (fo : Option Flight) : (w.setFlight id fo).store = w.store := rfl
 
-/-- one `advance` of a flight that satisfies the flight clause keeps the invariant -/
-theorem inv_advance {s0 : Store} {D : List Delivery} {w : World} (hinv : Inv s0 D w)
+/-- what one `advance` of a flight may put (the flight's local read, if any, came from a store of `H`) -/
+theorem advance_put {H : List Store} (f : Flight) (s : Store)
+    (hfg : ∀ c0, f.a.g = some (some c0) → ∃ s' ∈ H, s'.get (rwKey f.d) = some c0)
+    {k : Nat} {c : Content} (hW : Tok.W k c ∈ (advance f s).toks) :
+    k = rwKey f.d ∧ c.fam = kindFam f.d.kind ∧ KeyOk f.d ∧
+      (Legit f.d ∨ (kindFam f.d.kind ≠ 0 ∧ ∃ c0, c0.fam = kindFam f.d.kind ∧ ∃ s' ∈ H, s'.get k = some c0)) := by
+  obtain ⟨hk, hc, hko, hl⟩ := W_of_any_obs (advance_toks_sub f s _ hW)
+  refine ⟨hk, hc, hko, ?_⟩
+  rcases hl with hl | ⟨hf, c0, hg, hfam⟩
+  · exact Or.inl hl
+  · obtain ⟨s', hs', hget⟩ := hfg c0 hg
+    exact Or.inr ⟨hf, c0, hfam, s', hs', by rw [hk]; exact hget⟩
+
+/-- one `advance` of a flight that satisfies the flight clause keeps the invariant (the new store joins the history) -/
+theorem inv_advance {s0 : Store} {H : List Store} {D : List Delivery} {w : World} (hinv : Inv s0 H D w)
     (f : Flight) (hfD : f.d ∈ D)
-    (hfh : f.a.hs.getD 0 false = true → w.store.get (rwKey f.d) ≠ none) (id : Nat) :
-    Inv s0 D (({ w with store := (advance f w.store).store }).setFlight id
+    (hfg : ∀ c0, f.a.g = some (some c0) → ∃ s ∈ H, s.get (rwKey f.d) = some c0) (id : Nat) :
+    Inv s0 (H ++ [(advance f w.store).store]) D (({ w with store := (advance f w.store).store }).setFlight id
       (if (advance f w.store).done.isSome then none else some (advance f w.store).flight)) := by
   have hnew : ∀ k, (advance f w.store).store.get k ≠ none → Just s0 D k := by
     intro k hk
     rw [advance_store] at hk
     rcases applyToks_new _ _ _ hk with h1 | ⟨c, hc⟩
-    · exact hinv.held k h1
-    · obtain ⟨hkk, hko, hl⟩ := W_of_any_obs (advance_toks_sub f w.store _ hc)
-      rcases hl with hl | hl
+    · exact hinv.past _ hinv.cur k h1
+    · obtain ⟨hkk, _, hko, hl⟩ := advance_put f w.store hfg hc
+      rcases hl with hl | ⟨_, c0, _, s', hs', hget⟩
       · exact Or.inr ⟨f.d, hfD, hkk.symm, hko, hl⟩
-      · rw [hkk]; exact hinv.held _ (hfh hl)
-  have hkeep : ∀ k, w.store.get k ≠ none → (advance f w.store).store.get k ≠ none := by
-    intro k hk
-    rw [advance_store]
-    exact applyToks_keeps _ _ _ hk
+      · exact hinv.past s' hs' k (by rw [hget]; simp)
   constructor
-  · intro k hk
-    rw [setFlight_store] at hk
-    exact hnew k hk
+  · rw [setFlight_store]; simp
+  · intro s hs k hk
+    rcases List.mem_append.mp hs with h1 | h1
+    · exact hinv.past s h1 k hk
+    · simp only [List.mem_singleton] at h1
+      rw [h1] at hk; exact hnew k hk
   · intro p hp
-    rw [setFlight_store]
     rcases mem_setFlight hp with h1 | h1
     · obtain ⟨hd, hh⟩ := hinv.flights p h1
-      exact ⟨hd, fun h => hkeep _ (hh h)⟩
+      refine ⟨hd, fun c0 hc => ?_⟩
+      obtain ⟨s, hs, hg⟩ := hh c0 hc
+      exact ⟨s, List.mem_append_left _ hs, hg⟩
     · split at h1
       · simp at h1
       · simp only [Option.some.injEq] at h1
         rw [← h1, advance_flight_d, advance_flight_a]
-        exact ⟨hfD, fun h => hkeep _ (hfh h)⟩
+        refine ⟨hfD, fun c0 hc => ?_⟩
+        obtain ⟨s, hs, hg⟩ := hfg c0 hc
+        exact ⟨s, List.mem_append_left _ hs, hg⟩
 
 theorem serve_d (f : Flight) (s : Store) : (serve f s).d = f.d := by
   unfold serve
   split <;> rfl
 
-/-- serving a read keeps the flight clause: a first "held" answer is given only when the key is held -/
-theorem serve_first (f : Flight) (s : Store)
-    (hfh : f.a.hs.getD 0 false = true → s.get (rwKey f.d) ≠ none) :
-    (serve f s).a.hs.getD 0 false = true → s.get (rwKey (serve f s).d) ≠ none := by
+/-- serving a read keeps the flight clause: a record is handed out only if the store holds it at that moment -/
+theorem serve_g {H : List Store} (f : Flight) (s : Store) (hs : s ∈ H)
+    (hfg : ∀ c0, f.a.g = some (some c0) → ∃ s' ∈ H, s'.get (rwKey f.d) = some c0) :
+    ∀ c0, (serve f s).a.g = some (some c0) → ∃ s' ∈ H, s'.get (rwKey (serve f s).d) = some c0 := by
   rw [serve_d]
   unfold serve
   split
-  · simp only
-    cases hhs : f.a.hs with
-    | nil =>
-      simp only [List.nil_append, List.getD_cons_zero]
-      intro h
-      cases hg : s.get (rwKey f.d) with
-      | none => rw [hg] at h; simp at h
-      | some c => simp
-    | cons b rest =>
-      simp only [List.cons_append, List.getD_cons_zero]
-      intro h
-      apply hfh
-      rw [hhs]; simpa using h
-  · exact hfh
-  · exact hfh
+  · exact hfg
+  · intro c0 hc
+    simp only [Option.some.injEq] at hc
+    exact ⟨s, hs, hc⟩
+  · exact hfg
 
-/-- **One scheduler action keeps the invariant** (with the started list extended by a legal `begin`). -/
-theorem inv_act {s0 : Store} {D : List Delivery} {w : World} (hinv : Inv s0 D w) (a : Act) :
-    Inv s0 (D ++ startedBy w [a]) (w.act a).1 := by
-  have hmono : ∀ {w' : World} {E : List Delivery}, Inv s0 D w' → Inv s0 (D ++ E) w' := by
-    intro w' E h
-    exact ⟨fun k hk => (h.held k hk).mono (fun d hd => List.mem_append_left _ hd),
-      fun p hp => ⟨List.mem_append_left _ (h.flights p hp).1, (h.flights p hp).2⟩⟩
+/-- **One scheduler action keeps the invariant** (started list extended by a legal `begin`, history by the new store). -/
+theorem inv_act {s0 : Store} {H : List Store} {D : List Delivery} {w : World} (hinv : Inv s0 H D w) (a : Act) :
+    Inv s0 (H ++ [(w.act a).1.store]) (D ++ startedBy w [a]) (w.act a).1 := by
+  have hmonoD : ∀ {w' : World} {H' : List Store} {E : List Delivery}, Inv s0 H' D w' → Inv s0 H' (D ++ E) w' := by
+    intro w' H' E h
+    exact h.mono (fun _ hs => hs) (fun d hd => List.mem_append_left _ hd) (fun _ hs => hs)
+  have hsame : ∀ {D' : List Delivery}, Inv s0 H D' w → Inv s0 (H ++ [w.store]) D' w := by
+    intro D' h
+    refine h.mono (fun s hs => List.mem_append_left _ hs) (fun _ hd => hd) (fun s hs => ?_)
+    rcases List.mem_append.mp hs with h1 | h1
+    · exact h1
+    · simp only [List.mem_singleton] at h1; rw [h1]; exact h.cur
   cases a with
   | «begin» id d =>
     simp only [World.act, startedBy]
     cases hf : w.flight id with
-    | some f0 => simpa using hinv
+    | some f0 => simpa using hsame hinv
     | none =>
       simp only [Option.isNone_none, if_true, List.append_nil]
-      have hinv' : Inv s0 (D ++ [d]) w := hmono hinv
+      have hinv' : Inv s0 H (D ++ [d]) w := hmonoD hinv
       have := inv_advance hinv' (Flight.start d) (by simp [Flight.start])
         (by simp [Flight.start]) id
-      exact this
+      simpa [setFlight_store] using this
   | ans id =>
     simp only [World.act, startedBy, List.append_nil]
     cases hf : w.flight id with
-    | none => exact hinv
+    | none => exact hsame hinv
     | some f =>
       simp only
       split
       · obtain ⟨p, hp, hpf⟩ := flight_mem hf
         obtain ⟨hd, hh⟩ := hinv.flights p hp
         rw [hpf] at hd hh
-        constructor
-        · intro k hk; rw [setFlight_store] at hk; exact hinv.held k hk
-        · intro q hq
-          rw [setFlight_store]
-          rcases mem_setFlight hq with h1 | h1
-          · exact hinv.flights q h1
-          · simp only [Option.some.injEq] at h1
-            rw [← h1]
-            exact ⟨by rw [serve_d]; exact hd, serve_first f w.store hh⟩
-      · exact hinv
+        rw [setFlight_store]
+        have hb := hsame hinv
+        refine ⟨hb.cur, hb.past, ?_⟩
+        intro q hq
+        rcases mem_setFlight hq with h1 | h1
+        · exact hb.flights q h1
+        · simp only [Option.some.injEq] at h1
+          rw [← h1]
+          refine ⟨by rw [serve_d]; exact hd, ?_⟩
+          exact serve_g f w.store hb.cur (fun c0 hc => by
+            obtain ⟨s, hs, hg⟩ := hh c0 hc
+            exact ⟨s, List.mem_append_left _ hs, hg⟩)
+      · exact hsame hinv
   | run id =>
     simp only [World.act, startedBy, List.append_nil]
     cases hf : w.flight id with
-    | none => exact hinv
+    | none => exact hsame hinv
     | some f =>
       simp only
       split
       · obtain ⟨p, hp, hpf⟩ := flight_mem hf
         obtain ⟨hd, hh⟩ := hinv.flights p hp
         rw [hpf] at hd hh
-        exact inv_advance hinv f hd hh id
-      · exact hinv
+        have := inv_advance hinv f hd hh id
+        simpa [setFlight_store] using this
+      · exact hsame hinv
+  | remove k =>
+    simp only [World.act, startedBy, List.append_nil]
+    refine ⟨by simp, ?_, ?_⟩
+    · intro s hs k' hk'
+      rcases List.mem_append.mp hs with h1 | h1
+      · exact hinv.past s h1 k' hk'
+      · simp only [List.mem_singleton] at h1
+        rw [h1] at hk'
+        exact hinv.past _ hinv.cur k' (Store.remove_sub _ _ _ hk')
+    · intro p hp
+      obtain ⟨hd, hh⟩ := hinv.flights p hp
+      refine ⟨hd, fun c0 hc => ?_⟩
+      obtain ⟨s, hs, hg⟩ := hh c0 hc
+      exact ⟨s, List.mem_append_left _ hs, hg⟩
 
 theorem startedBy_cons (w : World) (a : Act) (rest : List Act) :
     startedBy w (a :: rest) = startedBy w [a] ++ startedBy (w.act a).1 rest := by
   simp [startedBy]
 
+theorem storesAlong_head (w : World) (acts : List Act) : w.store ∈ storesAlong w acts := by
+  cases acts <;> simp [storesAlong]
+
 /-- **Every schedule keeps the invariant.** -/
-theorem inv_run {s0 : Store} {D : List Delivery} {w : World} (hinv : Inv s0 D w) (acts : List Act) :
-    Inv s0 (D ++ startedBy w acts) (w.run acts) := by
-  induction acts generalizing D w with
-  | nil => simpa [World.run, startedBy] using hinv
+theorem inv_run {s0 : Store} {H : List Store} {D : List Delivery} {w : World} (hinv : Inv s0 H D w) (acts : List Act) :
+    Inv s0 (H ++ storesAlong w acts) (D ++ startedBy w acts) (w.run acts) := by
+  induction acts generalizing H D w with
+  | nil =>
+    simp only [World.run, startedBy, storesAlong, List.append_nil, List.foldl_nil]
+    refine hinv.mono (fun s hs => List.mem_append_left _ hs) (fun _ hd => hd) (fun s hs => ?_)
+    rcases List.mem_append.mp hs with h1 | h1
+    · exact h1
+    · simp only [List.mem_singleton] at h1; rw [h1]; exact hinv.cur
   | cons a rest ih =>
     have h1 := inv_act hinv a
     have h2 := ih h1
     rw [startedBy_cons, ← List.append_assoc]
-    simpa [World.run] using h2
+    have hrun : w.run (a :: rest) = (w.act a).1.run rest := by simp [World.run]
+    rw [hrun]
+    refine h2.mono (fun s hs => ?_) (fun _ hd => hd) (fun s hs => ?_)
+    · rcases List.mem_append.mp hs with h3 | h3
+      · rcases List.mem_append.mp h3 with h4 | h4
+        · exact List.mem_append_left _ h4
+        · simp only [List.mem_singleton] at h4
+          rw [h4]
+          exact List.mem_append_right _ (by simp [storesAlong, storesAlong_head])
+      · exact List.mem_append_right _ (by simp [storesAlong, h3])
+    · rcases List.mem_append.mp hs with h3 | h3
+      · exact List.mem_append_left _ (List.mem_append_left _ h3)
+      · simp only [storesAlong, List.mem_cons] at h3
+        rcases h3 with h4 | h4
+        · rw [h4]; exact List.mem_append_left _ (List.mem_append_left _ hinv.cur)
+        · exact List.mem_append_right _ h4
 
-theorem inv_init (s0 : Store) : Inv s0 [] ⟨s0, []⟩ :=
-  ⟨fun _ hk => Or.inl hk, fun p hp => by simp at hp⟩
+theorem inv_init (s0 : Store) : Inv s0 [s0] [] ⟨s0, []⟩ :=
+  ⟨by simp, fun s hs k hk => by simp only [List.mem_singleton] at hs; rw [hs] at hk; exact Or.inl hk,
+   fun p hp => by simp at hp⟩
 
-/-- **Main theorem of this file.**  From any initial store, after any list of scheduler actions (any number
-of validations, reads served at any time, any interleaving), every key the store holds was held initially or
-is the put key of a validation that was started, whose record key passed the key check and which was a
-replication delivery or paid in full. -/
+/-- the invariant after any schedule from an initial store, with the history that schedule passed through -/
+theorem inv_after (s0 : Store) (acts : List Act) :
+    Inv s0 (storesAlong ⟨s0, []⟩ acts) (startedBy ⟨s0, []⟩ acts) (World.run ⟨s0, []⟩ acts) := by
+  have h := inv_run (inv_init s0) acts
+  simp only [List.nil_append] at h
+  refine h.mono (fun s hs => ?_) (fun _ hd => hd) (fun s hs => List.mem_append_right _ hs)
+  rcases List.mem_append.mp hs with h1 | h1
+  · simp only [List.mem_singleton] at h1
+    rw [h1]; exact storesAlong_head ⟨s0, []⟩ acts
+  · exact h1
+
+/-- every store of the history is the store after a prefix of the schedule -/
+theorem storesAlong_prefix (w : World) (acts : List Act) (s : Store) (h : s ∈ storesAlong w acts) :
+    ∃ pre, pre <+: acts ∧ (w.run pre).store = s := by
+  induction acts generalizing w with
+  | nil =>
+    simp only [storesAlong, List.mem_singleton] at h
+    exact ⟨[], List.prefix_refl _, by simp [World.run, h]⟩
+  | cons a rest ih =>
+    simp only [storesAlong, List.mem_cons] at h
+    rcases h with h | h
+    · exact ⟨[], List.nil_prefix, by simp [World.run, h]⟩
+    · obtain ⟨pre, hp, hs⟩ := ih (w.act a).1 h
+      exact ⟨a :: pre, by simpa using hp, by simpa [World.run] using hs⟩
+
+/-- **Main theorem of this file (keys).**  From any initial store, after any list of scheduler actions (any number
+of validations, reads served at any time, keys dropped at any time, any interleaving), every key the store holds was
+held initially or is the put key of a validation that was started, whose record key passed the key check and which
+was a replication delivery or paid in full. -/
 theorem any_schedule_held_is_justified (s0 : Store) (acts : List Act) (k : Nat)
     (h : (World.run ⟨s0, []⟩ acts).store.get k ≠ none) :
-    Just s0 (startedBy ⟨s0, []⟩ acts) k := by
-  have := (inv_run (inv_init s0) acts).held k h
-  simpa using this
+    Just s0 (startedBy ⟨s0, []⟩ acts) k :=
+  (inv_after s0 acts).past _ (inv_after s0 acts).cur k h
+
+theorem mem_startedBy_append (w : World) (pre : List Act) (a : Act) (d : Delivery)
+    (h : d ∈ startedBy w pre ∨ d ∈ startedBy (w.run pre) [a]) : d ∈ startedBy w (pre ++ [a]) := by
+  induction pre generalizing w with
+  | nil => simpa [World.run, startedBy] using h
+  | cons b rest ih =>
+    rw [List.cons_append, startedBy_cons]
+    rcases h with h | h
+    · rw [startedBy_cons] at h
+      rcases List.mem_append.mp h with h1 | h1
+      · exact List.mem_append_left _ h1
+      · exact List.mem_append_right _ (ih _ (Or.inl h1))
+    · have : w.run (b :: rest) = (w.act b).1.run rest := by simp [World.run]
+      rw [this] at h
+      exact List.mem_append_right _ (ih _ (Or.inr h))
+
+theorem putsOf_ans (w : World) (id : Nat) : w.putsOf (.ans id) = [] := by
+  unfold World.putsOf World.actor
+  cases (w.act (Act.ans id)).2 with
+  | none => rfl
+  | some x => rfl
+
+theorem putsOf_remove (w : World) (k : Nat) : w.putsOf (.remove k) = [] := by
+  unfold World.putsOf World.actor
+  cases (w.act (Act.remove k)).2 with
+  | none => rfl
+  | some x => rfl
+
+theorem putsOf_begin {w : World} {id : Nat} (d : Delivery) (hf : w.flight id = none) :
+    w.putsOf (.begin id d) = (advance (Flight.start d) w.store).toks.filterMap (putOf d) := by
+  simp [World.putsOf, World.act, World.actor, hf]
+
+theorem putsOf_begin_busy {w : World} {id : Nat} {d : Delivery} {f : Flight} (hf : w.flight id = some f) :
+    w.putsOf (.begin id d) = [] := by
+  simp [World.putsOf, World.act, World.actor, hf]
+
+theorem putsOf_run_none {w : World} {id : Nat} (hf : w.flight id = none) : w.putsOf (.run id) = [] := by
+  simp [World.putsOf, World.act, World.actor, hf]
+
+theorem putsOf_run {w : World} {id : Nat} {f : Flight} (hf : w.flight id = some f) :
+    w.putsOf (.run id) = if f.answered then (advance f w.store).toks.filterMap (putOf f.d) else [] := by
+  by_cases h : f.answered = true <;> simp [World.putsOf, World.act, World.actor, hf, h]
+
+/-- **Main theorem of this file (writers).**  After any schedule `pre`, whichever action `a` comes next: every put
+it emits, for the delivery `d` whose validation emits it, is under `rwKey d`, carries content of the delivered kind,
+`d` was started and passed the key check, and `d` is a replication delivery, or paid in full, or the put is an
+**update**: the store held a record `c0` of the delivered (mutable) kind under that key after some prefix of `pre`
+(namely when this validation's `GetLocalRecord` was served). -/
+theorem put_justified (s0 : Store) (pre : List Act) (a : Act) (d : Delivery) (k : Nat) (c : Content)
+    (hput : (d, k, c) ∈ (World.run ⟨s0, []⟩ pre).putsOf a) :
+    k = rwKey d ∧ c.fam = kindFam d.kind ∧ KeyOk d ∧ d ∈ startedBy ⟨s0, []⟩ (pre ++ [a]) ∧
+      (Legit d ∨ (kindFam d.kind ≠ 0 ∧ ∃ c0, c0.fam = kindFam d.kind ∧
+        ∃ pre', pre' <+: pre ∧ (World.run ⟨s0, []⟩ pre').store.get k = some c0)) := by
+  have hinv := inv_after s0 pre
+  generalize hw : World.run ⟨s0, []⟩ pre = w at hput hinv
+  have hfin : ∀ (f : Flight), (∀ c0, f.a.g = some (some c0) → ∃ s' ∈ storesAlong ⟨s0, []⟩ pre, s'.get (rwKey f.d) = some c0) →
+      f.d = d → f.d ∈ startedBy ⟨s0, []⟩ (pre ++ [a]) → Tok.W k c ∈ (advance f w.store).toks →
+      k = rwKey d ∧ c.fam = kindFam d.kind ∧ KeyOk d ∧ d ∈ startedBy ⟨s0, []⟩ (pre ++ [a]) ∧
+      (Legit d ∨ (kindFam d.kind ≠ 0 ∧ ∃ c0, c0.fam = kindFam d.kind ∧
+        ∃ pre', pre' <+: pre ∧ (World.run ⟨s0, []⟩ pre').store.get k = some c0)) := by
+    intro f hfg hfd hst hW
+    obtain ⟨hk, hc, hko, hl⟩ := advance_put f w.store hfg hW
+    rw [hfd] at hk hc hko hl hst
+    refine ⟨hk, hc, hko, hst, ?_⟩
+    rcases hl with hl | ⟨hf, c0, hfam, s', hs', hget⟩
+    · exact Or.inl hl
+    · obtain ⟨pre', hp, hs⟩ := storesAlong_prefix _ _ _ hs'
+      exact Or.inr ⟨hf, c0, hfam, pre', hp, by rw [hs]; exact hget⟩
+  have hmemW : ∀ {toks : List Tok}, (d, k, c) ∈ toks.filterMap (putOf d) → Tok.W k c ∈ toks := by
+    intro toks h
+    rw [List.mem_filterMap] at h
+    obtain ⟨t, ht, he⟩ := h
+    cases t <;> simp [putOf] at he
+    obtain ⟨rfl, rfl⟩ := he
+    exact ht
+  cases a with
+  | «begin» id d' =>
+    cases hf : w.flight id with
+    | some f0 => rw [putsOf_begin_busy hf] at hput; simp at hput
+    | none =>
+      rw [putsOf_begin _ hf] at hput
+      have hd : d' = d := by
+        rw [List.mem_filterMap] at hput
+        obtain ⟨t, _, he⟩ := hput
+        cases t <;> simp [putOf] at he
+        exact he.1
+      subst hd
+      refine hfin (Flight.start d') (by simp [Flight.start]) rfl ?_ (hmemW hput)
+      apply mem_startedBy_append
+      right
+      rw [hw]
+      simp [startedBy, Flight.start, hf]
+  | ans id => rw [putsOf_ans] at hput; simp at hput
+  | run id =>
+    cases hf : w.flight id with
+    | none => rw [putsOf_run_none hf] at hput; simp at hput
+    | some f =>
+      rw [putsOf_run hf] at hput
+      obtain ⟨p, hp, hpf⟩ := flight_mem hf
+      obtain ⟨hdD, hh⟩ := hinv.flights p hp
+      rw [hpf] at hdD hh
+      split at hput
+      · have hd : f.d = d := by
+          rw [List.mem_filterMap] at hput
+          obtain ⟨t, _, he⟩ := hput
+          cases t <;> simp [putOf] at he
+          exact he.1
+        refine hfin f hh hd ?_ ?_
+        · exact mem_startedBy_append _ _ _ _ (Or.inl hdD)
+        · rw [hd] at hput; exact hmemW hput
+      · simp at hput
+  | remove k' => rw [putsOf_remove] at hput; simp at hput
+
+/-- `putsOf` misses nothing: a key an action makes held is the key of one of the puts it emits -/
+theorem new_key_is_put (w : World) (a : Act) (k : Nat) (hnew : w.store.get k = none)
+    (hheld : (w.act a).1.store.get k ≠ none) : ∃ d c, (d, k, c) ∈ w.putsOf a := by
+  have hW : ∀ (d : Delivery) (toks : List Tok), (applyToks w.store toks).get k ≠ none →
+      ∃ c, (d, k, c) ∈ toks.filterMap (putOf d) := by
+    intro d toks h
+    rcases applyToks_new _ _ _ h with h1 | ⟨c, hc⟩
+    · exact absurd hnew h1
+    · exact ⟨c, List.mem_filterMap.mpr ⟨_, hc, rfl⟩⟩
+  cases a with
+  | «begin» id d =>
+    cases hf : w.flight id with
+    | some f0 => simp only [World.act, hf] at hheld; exact absurd hnew hheld
+    | none =>
+      simp only [World.act, hf, setFlight_store, advance_store] at hheld
+      rw [putsOf_begin d hf]
+      obtain ⟨c, hc⟩ := hW d _ hheld
+      exact ⟨d, c, hc⟩
+  | ans id =>
+    cases hf : w.flight id with
+    | none => simp only [World.act, hf] at hheld; exact absurd hnew hheld
+    | some f =>
+      simp only [World.act, hf] at hheld
+      split at hheld
+      · rw [setFlight_store] at hheld; exact absurd hnew hheld
+      · exact absurd hnew hheld
+  | run id =>
+    cases hf : w.flight id with
+    | none => simp only [World.act, hf] at hheld; exact absurd hnew hheld
+    | some f =>
+      simp only [World.act, hf] at hheld
+      rw [putsOf_run hf]
+      split at hheld
+      · rename_i hans
+        simp only [setFlight_store, advance_store] at hheld
+        simp only [hans, if_true]
+        obtain ⟨c, hc⟩ := hW f.d _ hheld
+        exact ⟨f.d, c, hc⟩
+      · exact absurd hnew hheld
+  | remove k' =>
+    simp only [World.act] at hheld
+    exact absurd hnew (Store.remove_sub _ _ _ hheld)
 
 end SafeNet.Validate
